@@ -14,7 +14,7 @@ import z3
 
 from .core import (BreakSignal, ContinueSignal, EnumVal, Gen, Instance, PathEnd, PyRaise,
                    ReturnSignal, SArr, SList, SObj, Unsupported, concretize, is_z3, zbool, zint)
-from .model import Builtin, FunctionModel
+from .model import Builtin, Env, FunctionModel
 from .seqs import GenList, Part, SRange
 
 
@@ -35,9 +35,203 @@ class LoopSpec:
         self.opts = opts
 
 
+class NotAppendLoop(Exception):
+    pass
+
+
 class LoopMixin:
+    # ------------------------------------------------------------------ append-only loops
+    # `for v in S: [guards / continue / temporaries] acc.append(E)` builds the list
+    # acc + [E for v in S if guards]; such loops (also nested) are summarised as the comprehension they
+    # spell out, so that rewriting a comprehension as a loop does not need a hand-written invariant.
+    def append_target(self, node):
+        names = set()
+        local_lists = set()
+
+        def visit(stmts):
+            for st in stmts:
+                if isinstance(st, ast.Expr) and isinstance(st.value, ast.Call) and isinstance(st.value.func, ast.Attribute) \
+                        and st.value.func.attr == 'append' and isinstance(st.value.func.value, ast.Name) \
+                        and len(st.value.args) == 1 and not st.value.keywords:
+                    names.add(st.value.func.value.id)
+                elif isinstance(st, ast.If):
+                    visit(st.body)
+                    visit(st.orelse)
+                elif isinstance(st, ast.For) and not st.orelse:
+                    t = self.append_target(st)
+                    if t is None:
+                        raise NotAppendLoop()
+                    if t not in local_lists:
+                        names.add(t)
+                elif isinstance(st, (ast.Continue, ast.Pass)):
+                    pass
+                elif (isinstance(st, ast.Assign) and len(st.targets) == 1 and isinstance(st.targets[0], ast.Name)) or (
+                        isinstance(st, ast.AnnAssign) and isinstance(st.target, ast.Name) and st.value is not None):
+                    tgt = st.targets[0] if isinstance(st, ast.Assign) else st.target
+                    if isinstance(st.value, ast.List) and not st.value.elts:
+                        local_lists.add(tgt.id)
+                elif isinstance(st, ast.Expr) and isinstance(st.value, ast.Constant):
+                    pass
+                else:
+                    raise NotAppendLoop()
+        try:
+            visit(node.body)
+        except NotAppendLoop:
+            return None
+        names -= local_lists
+        if len(names) != 1 or node.orelse:
+            return None
+        return names.pop()
+
+    def summarize_append_loop(self, node, it, env):
+        from .interp import DEAD, MergeFail, SymbolicIteration
+        acc_name = self.append_target(node)
+        if acc_name is None:
+            return False
+        try:
+            acc = env.lookup(acc_name)
+        except KeyError:
+            return False
+        if not isinstance(acc, list):
+            return False
+        assigned = self.assigned_names(node) - {acc_name} - self.assigned_names(node.target)
+        if any(n in env.vars for n in assigned):
+            return False     # temporaries must be local to the loop
+        parts = []
+
+        def conj(a, b):
+            if a is True:
+                return b
+            if b is True:
+                return a
+            return z3.And(zbool(a), zbool(b))
+
+        def run_loop(fnode, seq, e, ranges, guard):
+            try:
+                items = self.iterate(seq)
+                alts = [([], True, x) for x in items]
+            except SymbolicIteration as si:
+                alts = self.sym_domain(si.value)
+            for r2, f2, el in alts:
+                e2 = Env(parent=e, module=e.module)
+                self.assign(fnode.target, el, e2)
+                g2 = conj(guard, f2)
+                events = []
+                block(fnode.body, e2, ranges + list(r2), g2, events)
+                # at most one append per iteration: guards must be pairwise exclusive
+                for i in range(len(events)):
+                    for j in range(i + 1, len(events)):
+                        if events[i][0] == events[j][0] and self.feasible(z3.And(
+                                zbool(Part(events[i][0], True, None).guard()), zbool(events[i][1]), zbool(events[j][1]))):
+                            raise NotAppendLoop()
+                parts.extend(Part(rg, gd, val) for rg, gd, val in events)
+
+        def block(stmts, e, ranges, guard, events):
+            """returns the guard under which execution continues after the statements"""
+            live = guard
+            for st in stmts:
+                if live is False:
+                    break
+                full = conj(Part(ranges, True, None).guard(), live)
+                if isinstance(st, ast.Expr) and isinstance(st.value, ast.Constant):
+                    continue
+                if isinstance(st, ast.Pass):
+                    continue
+                if isinstance(st, ast.Continue):
+                    live = False
+                    break
+                if isinstance(st, ast.Expr):
+                    v = self.guarded(lambda: self.eval(st.value.args[0], e), full)
+                    if v is not DEAD:
+                        events.append((list(ranges), live, v))
+                    continue
+                if isinstance(st, (ast.Assign, ast.AnnAssign)):
+                    v = self.guarded(lambda: self.eval(st.value, e), full)
+                    if v is DEAD:
+                        live = False
+                        break
+                    tgt = st.targets[0] if isinstance(st, ast.Assign) else st.target
+                    e.vars[tgt.id] = v
+                    continue
+                if isinstance(st, ast.If):
+                    c = self.guarded(lambda: self.truth_term(self.eval(st.test, e)), full)
+                    if c is DEAD:
+                        live = False
+                        break
+                    if c is True:
+                        live = block(st.body, e, ranges, live, events)
+                        continue
+                    if c is False:
+                        live = block(st.orelse, e, ranges, live, events)
+                        continue
+                    e_t = Env(parent=e, module=e.module)
+                    e_f = Env(parent=e, module=e.module)
+                    lt = block(st.body, e_t, ranges, conj(live, c), events)
+                    lf = block(st.orelse, e_f, ranges, conj(live, z3.Not(c)), events)
+                    if e_t.vars or e_f.vars:
+                        raise NotAppendLoop()   # temporaries assigned under a condition: not summarised
+                    live = False if (lt is False and lf is False) else (
+                        lf if lt is False else (lt if lf is False else z3.Or(zbool(lt), zbool(lf))))
+                    continue
+                if isinstance(st, ast.For):
+                    seq = self.guarded(lambda: self.eval(st.iter, e), full)
+                    if seq is DEAD:
+                        continue
+                    t = self.append_target(st)
+                    if t != acc_name:
+                        # inner loop filling a list that is local to this iteration (e.g. a row)
+                        ok = self.guarded(lambda: self.summarize_append_loop(st, seq, e), full)
+                        if ok is not True:
+                            raise NotAppendLoop()
+                        continue
+                    run_loop(st, seq, e, ranges, live)
+                    continue
+                raise NotAppendLoop()
+            return live
+
+        saved_pc = self.pc_mark()
+        from .core import _birth
+        outermost = self.summary_floor is None
+        if outermost:
+            self.summary_floor = _birth[0]
+        try:
+            run_loop(node, it, env, [], True)
+        except (NotAppendLoop, Unsupported, MergeFail) as e:
+            import os
+            if os.environ.get('PYVC_DEBUG'):
+                print('append-loop not summarised:', type(e).__name__, e)
+            self.pc_reset(saved_pc)
+            return False
+        finally:
+            if outermost:
+                self.summary_floor = None
+        new = self.gen_to_list(Gen(parts))
+        if acc:
+            if isinstance(new, list):
+                new = list(acc) + new
+            else:
+                return False
+        # rebind the accumulator (it is a local list that nothing else references in this pattern)
+        self.check_write(acc)
+        if isinstance(new, list):
+            acc[:] = new
+        else:
+            self.rebind_everywhere(env, acc_name, acc, new)
+        return True
+
+    def rebind_everywhere(self, env, name, old, new):
+        e = env
+        while e is not None:
+            if name in e.vars and e.vars[name] is old:
+                e.vars[name] = new
+                return
+            e = e.parent
+        raise Unsupported('accumulator not found')
+
     def loop_ordinal(self, fnode, node):
-        fors = [n for n in ast.walk(fnode) if isinstance(n, (ast.For, ast.While))]
+        # loops that merely build a list by appending are summarised automatically and do not count
+        fors = [n for n in ast.walk(fnode) if isinstance(n, (ast.For, ast.While))
+                and (n is node or not (isinstance(n, ast.For) and self.append_target(n) is not None))]
         fors.sort(key=lambda n: (n.lineno, n.col_offset))
         return fors.index(node)
 
@@ -47,6 +241,13 @@ class LoopMixin:
         f = self.fn_stack[-1]
         k = self.loop_ordinal(f.node, node)
         spec = self.loop_specs.get((f.module.name, f.qualname, k))
+        if spec is None:
+            # a loop moved into a helper of the same module keeps its invariant if it iterates the same expression
+            src = ast.unparse(node.iter)
+            cands = [sp for (m_, q_, k_), sp in self.loop_specs.items()
+                     if m_ == f.module.name and sp.opts.get('iter') == src]
+            if cands and all(c.fn is cands[0].fn for c in cands):
+                spec = cands[0]
         if spec is None:
             raise Unsupported(f'loop {k} of {f.qualname} iterates a symbolic sequence and has no invariant')
         if node.orelse:
@@ -133,7 +334,10 @@ class LoopMixin:
                     kwargs[n] = env.lookup(n)
                 except KeyError:
                     raise Unsupported(f'loop invariant parameter {n} is not a local')
-        return self.truth_term(self.call(fn, [], kwargs))
+        try:
+            return self.truth_term(self.call(fn, [], kwargs))
+        except z3.Z3Exception as e:
+            raise Unsupported(f'loop invariant does not fit this loop: {e}')
 
     def step_checks(self, spec, env, lid, extra):
         """per-iteration postconditions (`step=` of the loop spec): a dict name -> function"""
@@ -216,7 +420,7 @@ class LoopMixin:
     # ---------------------------------------------------------------- foreach
     def loop_foreach(self, node, it, env, spec, f):
         from .core import _birth
-        lid = f'{f.qualname}.loop{spec.loop}'
+        lid = f'loop:{spec.fn.name}'
         if isinstance(it, (GenList,)):
             gen = it.gen
         elif isinstance(it, Gen):
@@ -283,7 +487,7 @@ class LoopMixin:
     # ---------------------------------------------------------------- indexed
     def loop_indexed(self, node, it, env, spec, f):
         from .core import _birth
-        lid = f'{f.qualname}.loop{spec.loop}'
+        lid = f'loop:{spec.fn.name}'
         if isinstance(it, GenList):
             fv = self.fview(it)
             n, read = fv['n'], fv['read']
